@@ -7,13 +7,15 @@
 
   (The theorems about the regenerated table of named sets are in Props/C15_Table.lean.)
   Lemmas live in GoluaVerif/Proofs/{ByteSet,ByteSetTable,Gsub,PatMatchBasic,PatRefine,PatRefineTop,PatMono,PatBudget,
-  PatBuild,PatBuildRefine,PatRefineSpec,ParseWF,LuaFind}.lean.
+  PatBuild,PatBuildRefine,PatRefineSpec,ParseWF,LuaFind,GmatchRefine,GsubRefine,GsubRefineTop}.lean.
 -/
 import GoluaVerif.Proofs.Gsub
 import GoluaVerif.Proofs.PatMono
 import GoluaVerif.Proofs.ParseWF
 import GoluaVerif.Proofs.LuaFind
+import GoluaVerif.Proofs.GsubRefineTop
 import GoluaVerif.Proofs.PatBudget
+import GoluaVerif.Proofs.PatBuildReject
 namespace GoluaVerif.Props.C15
 open GoluaVerif GoluaVerif.Spec GoluaVerif.Model GoluaVerif.Model.PatMatch
 
@@ -33,29 +35,19 @@ theorem byteset_union (s t : ByteSet) (b : UInt8) : (s.merge t).contains b = (s.
 theorem byteset_add (s : ByteSet) (b c : UInt8) : (s.add b).contains c = (s.contains c || c == b) :=
   ByteSet.contains_add s b c
 
-/-- what `byteRange a b` contains, for ALL `a b`: `[a, b)` plus `b` -/
+/-- `byteRange a b` is the manual's closed interval for ALL `a b` — in particular empty for a descending range -/
 theorem byteset_range (a b c : UInt8) :
-    (ByteSet.byteRange a b).contains c = ((decide (a ≤ c) && decide (c < b)) || c == b) :=
+    (ByteSet.byteRange a b).contains c = (decide (a ≤ c) && decide (c ≤ b)) :=
   ByteSet.contains_byteRange a b c
 
-/-- for an ascending range that is the manual's closed interval … -/
-theorem byteset_range_ascending (a b c : UInt8) (h : a ≤ b) :
-    (ByteSet.byteRange a b).contains c = (decide (a ≤ c) && decide (c ≤ b)) :=
-  ByteSet.contains_byteRange_ascending a b c h
+/-- `byteRange` agrees with the Spec's range element on every byte -/
+theorem byteset_range_spec (a b c : UInt8) :
+    (ByteSet.byteRange a b).contains c = (LuaPattern.SetElem.range a b).matches c :=
+  ByteSet.contains_byteRange a b c
 
-example : (97 : UInt8) ≤ 122 := by decide
-
-/-- … for a descending one (`[z-a]`) it is `{b}` instead of the empty set: the `[z-a]` defect, for every such range -/
-theorem byteset_range_descending_counterexample (a b : UInt8) (h : b < a) :
-    (ByteSet.byteRange a b).contains b = true ∧ (LuaPattern.SetElem.range a b).matches b = false := by
-  constructor
-  · rw [ByteSet.contains_byteRange_descending a b b h]; simp
-  · unfold LuaPattern.SetElem.matches
-    have : ¬ (a ≤ b) := by
-      rw [UInt8.le_iff_toNat_le]; have := UInt8.lt_iff_toNat_lt.mp h; omega
-    simp [this]
-
-example : (97 : UInt8) < 122 := by decide
+/-- regression (was `byteset_range_descending_counterexample`): `[z-a]` does not contain `a` -/
+example : (ByteSet.byteRange 122 97).contains 97 = false := by
+  rw [ByteSet.contains_byteRange]; decide
 
 /-! ## the builder -/
 
@@ -66,93 +58,87 @@ theorem build_total (ptn : Array UInt8) (e : BErr) (h : PatBuild.build ptn = .er
 
 example : PatBuild.build #[37] = .error .malformed := by decide +kernel
 
-/-- BUILD ⊑ PARSE.  Whenever the Spec's parser accepts a pattern string (of at most `maxPatternSize` = 10000 bytes)
-    and none of its sets contains a descending range, the builder accepts it too and emits, item for item, the
+/-- BUILD ⊑ PARSE.  Whenever the Spec's parser accepts a pattern string (of at most `maxPatternSize` = 10000 bytes),
+    the builder accepts it too and emits, item for item, the
     machine item corresponding (`ItemRel`: same kind, same quantifier, byte set = character class on all 256 bytes,
     same capture index / `%b` delimiters) to each parsed item, with the same anchors and capture count. -/
 theorem build_refines_parse (ptn : Array UInt8) (pat : LuaPattern.Pat) (hparse : LuaPattern.parse ptn.toList = .ok pat)
-    (hasc : NoDescendingRange pat) (hsize : ptn.size ≤ Generated.ByteSetTable.maxPatternSize) :
+    (hsize : ptn.size ≤ Generated.ByteSetTable.maxPatternSize) :
     ∃ P, PatBuild.build ptn = .ok P ∧ RelL pat.items P.items.toList ∧ P.captureCount = pat.ncap ∧
       P.startAnchor = pat.anchorStart ∧ P.endAnchor = pat.anchorEnd ∧ pat.ncap ≤ 9 :=
-  PatBuild.build_refines_parse ptn pat hparse hasc hsize
+  PatBuild.build_refines_parse ptn pat hparse hsize
 
-/-- the converse direction is FALSE for one family: a pattern outside the manual's grammar that the builder accepts
-    (`%fa`: `%f` not followed by `[`) — "a malformed pattern raises an error" fails for it -/
-theorem build_rejects_malformed_counterexample :
-    LuaPattern.parse [37, 102, 97] = .error .malformed ∧
-    ((PatBuild.build #[37, 102, 97]).map fun P => P.items.size) = .ok 1 := by
+/-- BUILD REJECTS MALFORMED.  Every pattern string the Spec's parser rejects as malformed — pattern ends after `%`,
+    missing `]`, unclosed `(` , `)` without `(`, more than 9 captures, `%b` without its two characters, `%f` not followed
+    by `[`, `%0`, `%n` to a capture that does not exist or is still open — makes `pattern.New` return an error, whatever
+    its length.  With `build_total` the error is one of the builder's own error values (a Lua error, not a panic); with
+    `build_refines_parse` the builder's accept/reject decision is the Spec's on everything the manual gives a meaning
+    to (strings the Spec calls `unspecified`, e.g. `%z` or `[a-%d]`, are outside both theorems). -/
+theorem build_rejects_malformed (ptn : Array UInt8) (hparse : LuaPattern.parse ptn.toList = .error .malformed) :
+    ∃ e, PatBuild.build ptn = .error e :=
+  PatBuild.build_rejects_malformed ptn hparse
+
+/-- the hypothesis is satisfiable; regression for the repaired defect (was `build_rejects_malformed_counterexample`):
+    `%fa` (`%f` not followed by `[`) is rejected by both -/
+example : LuaPattern.parse [37, 102, 97] = .error .malformed ∧ PatBuild.build #[37, 102, 97] = .error .malformed := by
   constructor <;> decide +kernel
 
-/-- what the Spec's parser guarantees about captures (indices 1..9, opened once, closed only when open, `%n` only to a
-    closed capture, all closed at the end), provided no `%n` refers to a position capture -/
-theorem parse_captures_wf (p : List UInt8) (pat : LuaPattern.Pat) (hparse : LuaPattern.parse p = .ok pat)
-    (hnp : NoPosBackref pat.items) : CapturesWF pat :=
-  parse_wf p pat hparse hnp
+/-- what the Spec's parser guarantees about captures: indices 1..9, opened once, closed only when open, `%n` only to a
+    closed capture or a position capture, all closed at the end -/
+theorem parse_captures_wf (p : List UInt8) (pat : LuaPattern.Pat) (hparse : LuaPattern.parse p = .ok pat) :
+    CapturesWF pat :=
+  parse_wf p pat hparse
 
 /-! ## the matcher -/
 
 /-- MACHINE ⊑ SPEC (`machine_refines_spec`), on pattern STRINGS, for all patterns, subjects and start positions.
-    If the Spec parses `p` (so `p` is in the manual's grammar and not one of the forms the manual leaves open), no set
-    of `p` contains a descending range, no `%n` refers to a position capture `()`, and `p` has at most 10000 bytes,
-    then: the builder accepts `p`, and `MatchFromStart` on the built pattern (unlimited budget) returns exactly the
-    Spec's result — the leftmost match found by the recursive search with greedy/lazy/optional priorities, with all
-    captures, position captures and the whole-match bounds — for every machine fuel above some bound (termination),
-    recovering no index panic.
-
-    PARTIAL only in its hypotheses, each of which excludes a family where the statement is FALSE or not stated:
-    descending ranges (`inverted_range_counterexample`), `%n` to a position capture (the machine panics and the panic
-    is swallowed: `match_panics_counterexample`), patterns the Spec rejects but the builder accepts
-    (`build_rejects_malformed_counterexample`) or that the manual leaves open. -/
-theorem machine_refines_spec_partial (p : Array UInt8) (s : Subject) (init : Nat) (hinit : init ≤ s.size)
-    (pat : LuaPattern.Pat) (hparse : LuaPattern.parse p.toList = .ok pat) (hasc : NoDescendingRange pat)
-    (hnp : NoPosBackref pat.items) (hsize : p.size ≤ Generated.ByteSetTable.maxPatternSize) :
+    If the Spec parses `p` (i.e. `p` is in the manual's grammar and not one of the forms the manual leaves open) and `p`
+    has at most 10000 bytes (golua's `maxPatternSize`), then: the builder accepts `p`, and `MatchFromStart` on the built
+    pattern (unlimited budget) returns exactly the Spec's result — the leftmost match found by the recursive search
+    with greedy/lazy/optional priorities, with all captures, position captures and the whole-match bounds — for every
+    machine fuel above some bound (termination), raising no index panic.  This includes descending ranges (empty) and
+    back-references to position captures (never match). -/
+theorem machine_refines_spec (p : Array UInt8) (s : Subject) (init : Nat) (hinit : init ≤ s.size)
+    (pat : LuaPattern.Pat) (hparse : LuaPattern.parse p.toList = .ok pat)
+    (hsize : p.size ≤ Generated.ByteSetTable.maxPatternSize) :
     ∃ P, PatBuild.build p = .ok P ∧ ∃ N, ∀ fuel, N ≤ fuel →
       (matchFromStart P s fuel init 0).captures = (LuaPattern.findParsed pat s init).map toCaptures ∧
-      (matchFromStart P s fuel init 0).swallowedPanic = none ∧
+      (matchFromStart P s fuel init 0).escapedPanic = none ∧
       (matchFromStart P s fuel init 0).outOfFuel = false :=
-  machine_refines_spec_str p s init hinit pat hparse hasc (parse_wf p.toList pat hparse hnp) hsize
+  machine_refines_spec_str p s init hinit pat hparse (parse_wf p.toList pat hparse) hsize
 
-/-- the hypotheses of `machine_refines_spec_partial` are satisfiable: the pattern `a*(b)%1` -/
-example : ∃ pat, LuaPattern.parse (#[97, 42, 40, 98, 41, 37, 49] : Array UInt8).toList = .ok pat ∧
-    NoDescendingRange pat ∧ NoPosBackref pat.items := by
-  refine ⟨⟨false, false, [.char (.lit 97) .star, .open 1, .char (.lit 98) .one, .close 1, .backref 1], 1⟩,
-    by decide +kernel, ?_, ?_⟩
-  · intro it hit
-    simp only [List.mem_cons, List.not_mem_nil, or_false] at hit
-    rcases hit with rfl | rfl | rfl | rfl | rfl <;> trivial
-  · intro n hb hp
-    simp at hp
+/-- the hypotheses are satisfiable, e.g. by `[z-a]()%1` (a descending range and a back-reference to a position capture) -/
+example : LuaPattern.parse (#[91, 122, 45, 97, 93, 40, 41, 37, 49] : Array UInt8).toList =
+    .ok ⟨false, false, [.char (.set false [.range 122 97]) .one, .pos 1, .backref 1], 1⟩ := by decide +kernel
 
 /-- `string.find(s, p, init)` (pattern mode) at the LUA level: the mirror of matching.go's `find` returns exactly the
     values the Spec prescribes — indices, captured strings, positions — for every subject and EVERY `init` (negative,
-    0, beyond the end), under the hypotheses of `machine_refines_spec_partial` (and `p` not empty: the empty pattern
-    takes golua's plain-search path, see `find_plain_offset_example`) -/
-theorem lua_find_refines_spec_partial (p : Array UInt8) (s : Subject) (init : Int) (pat : LuaPattern.Pat)
-    (hparse : LuaPattern.parse p.toList = .ok pat) (hasc : NoDescendingRange pat) (hnp : NoPosBackref pat.items)
+    0, beyond the end), for every non-empty `p` the Spec parses (the empty pattern takes golua's plain-search path,
+    see `find_plain_offset_example`) -/
+theorem lua_find_refines_spec (p : Array UInt8) (s : Subject) (init : Int) (pat : LuaPattern.Pat)
+    (hparse : LuaPattern.parse p.toList = .ok pat)
     (hsize : p.size ≤ Generated.ByteSetTable.maxPatternSize) (hne : p.size ≠ 0) :
     ∃ vs, LuaPattern.strFind s p.toList init false = .vals vs ∧
       ∃ N, ∀ fuel, N ≤ fuel → Gsub.luaFind fuel s p init false = .vals vs :=
-  luaFind_refines p s init pat hparse hasc hnp hsize hne
+  luaFind_refines p s init pat hparse hsize hne
 
-/-- `string.match(s, p, init)` at the LUA level, for `init` not beyond `#s + 1` (beyond it golua slices out of range:
-    `match_init_beyond_end_counterexample`) -/
-theorem lua_match_refines_spec_partial (p : Array UInt8) (s : Subject) (init : Int) (pat : LuaPattern.Pat)
-    (hparse : LuaPattern.parse p.toList = .ok pat) (hasc : NoDescendingRange pat) (hnp : NoPosBackref pat.items)
-    (hsize : p.size ≤ Generated.ByteSetTable.maxPatternSize) (hin : LuaPattern.normInit s.size init ≤ s.size) :
+/-- `string.match(s, p, init)` at the LUA level, for EVERY `init` (beyond `#s + 1`: nil, never a slice out of range) -/
+theorem lua_match_refines_spec (p : Array UInt8) (s : Subject) (init : Int) (pat : LuaPattern.Pat)
+    (hparse : LuaPattern.parse p.toList = .ok pat)
+    (hsize : p.size ≤ Generated.ByteSetTable.maxPatternSize) :
     ∃ vs, LuaPattern.strMatch s p.toList init = .vals vs ∧
       ∃ N, ∀ fuel, N ≤ fuel → Gsub.luaMatch fuel s p init = .vals vs :=
-  luaMatch_refines p s init pat hparse hasc hnp hsize hin
+  luaMatch_refines p s init pat hparse hsize
 
-example : LuaPattern.normInit 3 (-1) ≤ 3 := by decide
-
-/-- MATCH TOTAL (partial): under the same hypotheses, whatever the machine fuel, `MatchFromStart` never recovers an
-    index-out-of-range / slice-bounds panic.  It is FALSE without the position-capture hypothesis (next theorem);
-    for patterns the Spec does not parse it is not proved. -/
+/-- MATCH TOTAL (partial): for every pattern the Spec parses, whatever the machine fuel, `MatchFromStart` raises no
+    index-out-of-range / slice-bounds panic.  Missing for the full statement: pattern strings that the builder accepts
+    although the Spec does not parse them (forms the manual leaves open, such as `[%a-z]`); for those the tie is the
+    correspondence only. -/
 theorem match_total_partial (p : Array UInt8) (s : Subject) (init : Nat) (hinit : init ≤ s.size)
-    (pat : LuaPattern.Pat) (hparse : LuaPattern.parse p.toList = .ok pat) (hasc : NoDescendingRange pat)
-    (hnp : NoPosBackref pat.items) (hsize : p.size ≤ Generated.ByteSetTable.maxPatternSize) :
-    ∃ P, PatBuild.build p = .ok P ∧ ∀ fuel, (matchFromStart P s fuel init 0).swallowedPanic = none :=
-  match_total_str p s init hinit pat hparse hasc (parse_wf p.toList pat hparse hnp) hsize
+    (pat : LuaPattern.Pat) (hparse : LuaPattern.parse p.toList = .ok pat)
+    (hsize : p.size ≤ Generated.ByteSetTable.maxPatternSize) :
+    ∃ P, PatBuild.build p = .ok P ∧ ∀ fuel, (matchFromStart P s fuel init 0).escapedPanic = none :=
+  match_total_str p s init hinit pat hparse (parse_wf p.toList pat hparse) hsize
 
 /-- MACHINE ⊑ SPEC (items level, all item kinds).  For a built `Pattern` `P` whose items correspond to the parsed
     items of `pat` (`PatRel`: single-character items with `* + - ?`, `%b`, `%f`, captures, position captures,
@@ -163,7 +149,7 @@ theorem machine_refines_spec_items (P : Pattern) (s : Subject) (pat : LuaPattern
     (init : Nat) (hinit : init ≤ s.size) :
     ∃ N, ∀ fuel, N ≤ fuel →
       (matchFromStart P s fuel init 0).captures = (LuaPattern.findParsed pat s init).map toCaptures ∧
-      (matchFromStart P s fuel init 0).swallowedPanic = none ∧
+      (matchFromStart P s fuel init 0).escapedPanic = none ∧
       (matchFromStart P s fuel init 0).outOfFuel = false :=
   matchFromStart_refines P s pat hp init hinit
 
@@ -172,7 +158,7 @@ theorem machine_search_refines_spec_items (P : Pattern) (s : Subject) (pat : Lua
     (init : Nat) (hinit : init ≤ s.size) :
     ∃ N, ∀ fuel, N ≤ fuel →
       (matchGo P s fuel init 0).captures = (LuaPattern.scan pat s init (s.size - init)).map toCaptures ∧
-      (matchGo P s fuel init 0).swallowedPanic = none ∧
+      (matchGo P s fuel init 0).escapedPanic = none ∧
       (matchGo P s fuel init 0).outOfFuel = false :=
   matchGo_refines P s pat hp init hinit
 
@@ -203,49 +189,72 @@ example : PatRel exP exPat := by
     subst this
     left; simp [exPat, shapeAfter, Shapes.set]
 
-/-- NO GO PANIC, items level: under `PatRel`, whatever the machine fuel, `MatchFromStart` never recovers an
+/-- NO GO PANIC, items level: under `PatRel`, whatever the machine fuel, `MatchFromStart` raises no
     index-out-of-range / slice-bounds panic -/
 theorem match_total_items (P : Pattern) (s : Subject) (pat : LuaPattern.Pat) (hp : PatRel P pat)
     (init : Nat) (hinit : init ≤ s.size) (fuel : Nat) :
-    (matchFromStart P s fuel init 0).swallowedPanic = none :=
+    (matchFromStart P s fuel init 0).escapedPanic = none :=
   matchFromStart_no_panic P s pat hp init hinit fuel
 
-/-- `()%1` on the subject `a`: the machine slices `s[0:-1]`; the panic is swallowed by the `recover()` of
-    `MatchFromStart`, which then reports "no match, 0 budget used" -/
-theorem match_panics_counterexample :
-    ((PatBuild.build #[40, 41, 37, 49]).map fun P => (matchFromStart P #[97] 100 0 0).swallowedPanic)
-      = .ok (some .subjSlice) := by decide +kernel
+/-- regression (was `match_panics_counterexample`): `()%1` on the subject `a` — no match, no panic -/
+example : ((PatBuild.build #[40, 41, 37, 49]).map fun P =>
+      let r := matchFromStart P #[97] 100 0 0
+      (r.captures, r.escapedPanic, r.outOfFuel)) = .ok (none, none, false) := by decide +kernel
 
-/-- BUDGET CHARGED = BYTES CONSUMED, for every pattern, subject, start, budget and fuel -/
+/-! ## CPU budget -/
+
+/-- BUDGET = WORK (`work_le_budget` at full strength, as an equality).  For every pattern, subject, start position,
+    budget `B > 0` and fuel: when `MatchFromStart` returns normally, the amount it reports as used is EXACTLY
+    `steps + bytes consumed + bytes compared by back-references` (`steps` = iterations of the `match()` loop and of
+    the `matchToEnd` loop, i.e. every piece of work the matcher does), and it is below `B`; otherwise the budget
+    sentinel was raised (reported as `B + 1`, which kills the context), an index panic was re-raised, or the model's
+    fuel ran out. -/
 theorem budget_charged (P : Pattern) (s : Subject) (fuel : Nat) (init : Int) (B : Nat) (hB : 0 < B) :
     let r := matchFromStart P s fuel init B
-    (r.used = r.consumed ∧ r.used < B) ∨ (r.used = B + 1 ∧ r.captures = none) ∨ r.swallowedPanic.isSome ∨
-      r.outOfFuel = true :=
+    (r.used = r.steps + r.consumed + r.compared ∧ r.used < B) ∨ (r.used = B + 1 ∧ r.captures = none) ∨
+      r.escapedPanic.isSome ∨ r.outOfFuel = true :=
   matchFromStart_charged P s fuel init B hB
 
 example : (0 : Nat) < 1000 := by decide
 
-/-- WORK ≤ BUDGET is FALSE: machine steps that consume no byte are not charged.  `a?a?a?c` on `bbbb` takes 25
-    steps and charges 0 (family `("a?"):rep(k).."c"` on `("b"):rep(n)`: about `(k+2)·(n+1)` steps, 0 charged). -/
-theorem work_le_budget_counterexample :
-    ((PatBuild.build #[97, 63, 97, 63, 97, 63, 99]).map fun P =>
+/-- WORK ≤ BUDGET: the number of matcher steps never exceeds what is charged -/
+theorem work_le_budget (P : Pattern) (s : Subject) (fuel : Nat) (init : Int) (B : Nat) (hB : 0 < B) :
+    let r := matchFromStart P s fuel init B
+    r.steps ≤ r.used ∨ r.escapedPanic.isSome ∨ r.outOfFuel = true := by
+  have h := matchFromStart_charged P s fuel init B hB
+  simp only at h ⊢
+  rcases h with h | h | h | h
+  · left; omega
+  · left
+    -- after a budget panic the ghost counters of the result are 0
+    unfold matchFromStart at h ⊢
+    cases hr : findFromStart P s fuel (initM init B) with
+    | ok v => rw [hr] at h; simp [recoverWrap] at h ⊢; omega
+    | error e => cases e <;> simp [recoverWrap]
+  · right; left; exact h
+  · right; right; exact h
+
+/-- regression (was `work_le_budget_counterexample`): `a?a?a?c` on `bbbb` under a budget of 1000 — the steps are now
+    charged: `used = steps + consumed` -/
+example : ((PatBuild.build #[97, 63, 97, 63, 97, 63, 99]).map fun P =>
       let r := matchFromStart P #[98, 98, 98, 98] 1000 0 1000
-      (r.captures, r.used, decide (r.steps ≥ 20))) = .ok (none, 0, true) := by decide +kernel
+      (r.captures, decide (r.used = r.steps + r.consumed), decide (r.steps ≥ 20))) = .ok (none, true, true) := by
+  decide +kernel
 
 /-! ## gsub / gmatch stepping -/
 
 /-- GSUB PROGRESS, for EVERY matcher that returns matches at or after the requested start, not reversed, inside the
-    subject: the loop of `gsub` terminates within its fuel, never slices out of range, the positions it visits
-    strictly increase, and the accepted matches are disjoint and ordered, an empty match is never accepted where
-    the previous accepted match ended, and no two matches are accepted at the same position
+    subject, anchored or not: the loop of `gsub` terminates within its fuel, never slices out of range, the positions
+    it visits strictly increase, and the accepted matches are disjoint and ordered, an empty match is never accepted
+    where the previous accepted match ended, and no two matches are accepted at the same position
     (`After later earlier := earlier.stop ≤ later.start ∧ (later empty ∨ earlier empty → earlier.stop < later.start)`). -/
 theorem gsub_progress (s : Gsub.Subject) (matcher : Gsub.Matcher) (repl : List Capture → Gsub.ReplOut)
-    (n : Option Nat) (hm : Gsub.MatcherOK s.size matcher) :
-    (∃ st', Gsub.gsubLoop s matcher repl n (s.size + 3) {} = .done st' ∧
+    (n : Option Nat) (anchored : Bool) (hm : Gsub.MatcherOK s.size matcher) :
+    (∃ st', Gsub.gsubLoop s matcher repl n anchored (s.size + 3) {} = .done st' ∧
         st'.visited.Pairwise (· > ·) ∧ st'.accepted.Pairwise Gsub.After) ∨
-    Gsub.gsubLoop s matcher repl n (s.size + 3) {} = .replErr ∨
-    (∃ w, Gsub.gsubLoop s matcher repl n (s.size + 3) {} = .panic w ∧ ∃ caps, repl caps = .panic w) :=
-  Gsub.gsubLoop_inv s matcher repl n hm (s.size + 3) {} (Gsub.inv_init s.size) (by simp)
+    Gsub.gsubLoop s matcher repl n anchored (s.size + 3) {} = .replErr ∨
+    (∃ w, Gsub.gsubLoop s matcher repl n anchored (s.size + 3) {} = .panic w ∧ ∃ caps, repl caps = .panic w) :=
+  Gsub.gsubLoop_inv s matcher repl n anchored hm (s.size + 3) {} (Gsub.inv_init s.size) (by simp)
 
 example : Gsub.MatcherOK 3 (fun si => if si ≤ 1 then some [⟨1, 2⟩] else none) := by
   intro si gc rest h
@@ -253,45 +262,80 @@ example : Gsub.MatcherOK 3 (fun si => if si ≤ 1 then some [⟨1, 2⟩] else no
   · simp [h1] at h; obtain ⟨rfl, _⟩ := h; simp; omega
   · simp [h1] at h
 
-/-- `string.gsub("aa", "a*", "x")`: the manual says `x 1`; the mirror of golua says `x 2`
-    (a rejected empty match is still counted) -/
+/-- GMATCH ⊑ SPEC.  `string.gmatch(s, p, init)` iterated to exhaustion, as mirrored from matching.go (search from `si`
+    with `pat.Match`, `allowEmpty` flag), yields exactly the values of the Lua 5.4 iteration (anchored attempt at `src`,
+    a match ending at `lastmatch` is rejected, otherwise advance one byte) — for every subject, every `init`, every
+    pattern the Spec parses that does not start with `^` (for those the manual leaves gmatch open). -/
+theorem gmatch_refines_spec (p : Array UInt8) (s : Subject) (init : Int) (pat : LuaPattern.Pat)
+    (hparse : LuaPattern.parse p.toList = .ok pat) (hsize : p.size ≤ Generated.ByteSetTable.maxPatternSize)
+    (hanch : pat.anchorStart = false) :
+    ∃ vs, LuaPattern.strGmatch s p.toList init = .vals vs ∧
+      ∃ N, ∀ fuel, N ≤ fuel → Gsub.luaGmatch fuel s p init = .vals vs :=
+  luaGmatch_refines p s init pat hparse hsize hanch
+
+/-- GSUB ⊑ SPEC (partial).  `string.gsub(s, p, repl)` with a string `repl` and no limit, unanchored pattern: the
+    resulting STRING is exactly the Spec's (same matches, same expansions of `%0`–`%9`/`%%`, same copying of the
+    unmatched parts), a replacement the Spec rejects (`%d` beyond the captures) is an error in golua too.
+    PARTIAL: golua's COUNT is only shown to be ≥ the Spec's — it also counts the empty matches it rejects
+    (`gsub_count_counterexample`; not repaired because golua's own test suite pins that count), and for the same
+    reason nothing is stated for a limit `n`.  Where the manual leaves the replacement open (`%` + other) nothing is
+    claimed. -/
+theorem gsub_refines_spec_partial (p : Array UInt8) (s : Subject) (repl : List UInt8) (pat : LuaPattern.Pat)
+    (hparse : LuaPattern.parse p.toList = .ok pat) (hsize : p.size ≤ Generated.ByteSetTable.maxPatternSize)
+    (hanch : pat.anchorStart = false) :
+    match LuaPattern.strGsub s p.toList repl none with
+    | .vals [.str out, .int cnt] => ∃ N, ∀ fuel, N ≤ fuel → ∃ cnt' : Nat,
+        Gsub.luaGsub fuel s p repl none = .vals [.str out, .int cnt'] ∧ cnt ≤ (cnt' : Int)
+    | .error => ∃ N, ∀ fuel, N ≤ fuel → Gsub.luaGsub fuel s p repl none = .replError
+    | _ => True :=
+  luaGsub_refines p s repl pat hparse hsize hanch
+
+/-- GSUB ⊑ SPEC for a pattern anchored with `^`: exactly the Spec's result, count included (one attempt at the start
+    of the subject) -/
+theorem gsub_anchored_refines_spec (p : Array UInt8) (s : Subject) (repl : List UInt8) (pat : LuaPattern.Pat)
+    (hparse : LuaPattern.parse p.toList = .ok pat) (hsize : p.size ≤ Generated.ByteSetTable.maxPatternSize)
+    (hanch : pat.anchorStart = true) :
+    match LuaPattern.strGsub s p.toList repl none with
+    | .vals vs => ∃ N, ∀ fuel, N ≤ fuel → Gsub.luaGsub fuel s p repl none = .vals vs
+    | .error => ∃ N, ∀ fuel, N ≤ fuel → Gsub.luaGsub fuel s p repl none = .replError
+    | .unspecified => True :=
+  luaGsub_anchored_refines p s repl pat hparse hsize hanch
+
+example : (LuaPattern.parse [94, 97]).map (·.anchorStart) = .ok true := by decide +kernel
+example : (LuaPattern.parse [97, 42]).map (·.anchorStart) = .ok false := by decide +kernel
+
+/-- `string.gsub("aa", "a*", "x")`: the manual says `x 1`; the mirror of golua says `x 2` (a rejected empty match is
+    still counted, and consumes the limit `n`).  NOT repaired: golua's own test suite pins this count
+    (lib/stringlib/lua/matching.lua: `string.gsub("abc", "b*", "Z")` → `ZaZcZ 4`). -/
 theorem gsub_count_counterexample :
     LuaPattern.strGsub #[97, 97] [97, 42] [120] none = .vals [.str [120], .int 1] ∧
     Gsub.luaGsub 1000 #[97, 97] #[97, 42] [120] none = .vals [.str [120], .int 2] := by
   constructor <;> decide +kernel
 
-/-- `string.gsub("aa", "^a", "x")`: the manual says `xa 1`; the mirror of golua says `xx 2` (`^` ignored) -/
-theorem gsub_anchor_counterexample :
+/-- regressions of repaired defects: Spec and mirror agree on the former counterexamples -/
+example :  -- `string.gsub("aa", "^a", "x")` = `xa 1`
     LuaPattern.strGsub #[97, 97] [94, 97] [120] none = .vals [.str [120, 97], .int 1] ∧
-    Gsub.luaGsub 1000 #[97, 97] #[94, 97] [120] none = .vals [.str [120, 120], .int 2] := by
+    Gsub.luaGsub 1000 #[97, 97] #[94, 97] [120] none = .vals [.str [120, 97], .int 1] := by
   constructor <;> decide +kernel
 
-/-- `string.gsub("ab", "a", "")`: the manual says `b 1`; the mirror of golua says `ab 1` (empty output so far
-    is taken for "nothing substituted") -/
-theorem gsub_empty_output_counterexample :
+example :  -- `string.gsub("ab", "a", "")` = `b 1`
     LuaPattern.strGsub #[97, 98] [97] [] none = .vals [.str [98], .int 1] ∧
-    Gsub.luaGsub 1000 #[97, 98] #[97] [] none = .vals [.str [97, 98], .int 1] := by
+    Gsub.luaGsub 1000 #[97, 98] #[97] [] none = .vals [.str [98], .int 1] := by
   constructor <;> decide +kernel
 
-/-- plain `string.find` with an offset (`string.find("abab", "b", 3, true)` = `4 4`): Spec and mirror agree
-    (the mirror follows the fix `5774084` of /repo; before it the indices were relative to `init`) -/
+example :  -- `string.match("a", "^", 3)` = nil
+    LuaPattern.strMatch #[97] [94] 3 = .vals [.nil] ∧ Gsub.luaMatch 1000 #[97] #[94] 3 = .vals [.nil] := by
+  constructor <;> decide +kernel
+
+example :  -- `[z-a]` against `a`: no match
+    LuaPattern.find [91, 122, 45, 97, 93] #[97] 0 = .noMatch ∧
+    ((PatBuild.build #[91, 122, 45, 97, 93]).map fun P => (matchFromStart P #[97] 100 0 0).captures) = .ok none := by
+  constructor <;> decide +kernel
+
+/-- plain `string.find` with an offset (`string.find("abab", "b", 3, true)` = `4 4`): Spec and mirror agree -/
 theorem find_plain_offset_example :
     LuaPattern.strFind #[97, 98, 97, 98] [98] 3 true = .vals [.int 4, .int 4] ∧
     Gsub.luaFind 1000 #[97, 98, 97, 98] #[98] 3 true = .vals [.int 4, .int 4] := by
-  constructor <;> decide +kernel
-
-/-- `string.match("a", "^", 3)`: the manual says `nil`; in the mirror of golua the slice `s[2:2]` of a 1-byte
-    string is out of range — a Go panic that is NOT inside the `recover()` of the pattern package -/
-theorem match_init_beyond_end_counterexample :
-    LuaPattern.strMatch #[97] [94] 3 = .vals [.nil] ∧
-    Gsub.luaMatch 1000 #[97] #[94] 3 = .panic .subjSlice := by
-  constructor <;> decide +kernel
-
-/-- `[z-a]` against `a` at the Lua level: Spec no match, mirror matches -/
-theorem inverted_range_counterexample :
-    LuaPattern.find [91, 122, 45, 97, 93] #[97] 0 = .noMatch ∧
-    ((PatBuild.build #[91, 122, 45, 97, 93]).map fun P => (matchFromStart P #[97] 100 0 0).captures)
-      = .ok (some [⟨0, 1⟩]) := by
   constructor <;> decide +kernel
 
 end GoluaVerif.Props.C15
